@@ -36,6 +36,10 @@ def extreme_mutation(case, rnd):
         if runs:
             m = rnd.choice(runs)
             big = rnd.choice([b"40000000", b"4294967295", b"4294967296", b"18446744073709551615", b"99999999999", b"2147483647", b"65535", b"16777216"])
+            if rnd.random() < 0.5:
+                # the same number plus a multiple of 256 / 65536: equal to the original in its low byte(s), as a count that
+                # "wrapped around" a narrower field elsewhere in the reply would be
+                big = str(int(m.group(0)) + rnd.choice([1 << 20, 1 << 24, 1 << 32, 256 * 10 ** 6])).encode()
             c.script[ci][i] = bytes(d[:m.start()]) + big + bytes(d[m.end():])
             return c, "extreme-bignum"
         kind = "byte"
